@@ -369,12 +369,39 @@ def diff_cause(d: semrun.Diff) -> str:
     return "none"
 
 
+def _union_sibling_requires_const(doc: Any, name: str) -> bool:
+    """some union of the document has an alternative that declares `name` as a required `const` member"""
+    if isinstance(doc, list):
+        return any(_union_sibling_requires_const(x, name) for x in doc)
+    if not isinstance(doc, dict):
+        return False
+    root = doc
+    def alt_has(a: Any) -> bool:
+        return isinstance(a, dict) and name in a.get("required", []) and "const" in ((a.get("properties") or {}).get(name) or {})
+
+    def walk(s: Any) -> bool:
+        if isinstance(s, list):
+            return any(walk(x) for x in s)
+        if not isinstance(s, dict):
+            return False
+        for key in ("anyOf", "oneOf"):
+            if isinstance(s.get(key), list) and any(alt_has(semgen.resolve(root, a) if isinstance(a, dict) else a) for a in s[key]):
+                return True
+        return any(walk(v) for v in s.values())
+
+    return walk(doc)
+
+
 def mutation_cause(doc: dict, m: semgen.Mutation) -> str:
     if m.keyword == "required":
         psch = semgen.resolve(doc, m.leaf.get("properties", {}).get(m.path[-1], {}))
         if m.cause in ("required_nullable_member", "allOf_required_inherited_member"):
             return m.cause
         if "const" in psch:
+            return "required_const_member"
+        if m.in_union and _union_sibling_requires_const(doc, m.path[-1]):
+            # the object was told apart from a sibling alternative only by this member; the sibling declares it
+            # as a required `const` (optional with a default in v1-style output: D30) and takes the value over
             return "required_const_member"
     return m.cause
 
@@ -459,6 +486,12 @@ def focused_docs() -> list[tuple[str, dict]]:
     docs.append(("member_required", {"title": "Model", "type": "object", "properties": dict(L), "required": names, "additionalProperties": False}))
     docs.append(("member_optional", {"title": "Model", "type": "object", "properties": dict(L), "required": names[:1]}))
     docs.append(("array_item", {"title": "Model", "type": "object", "properties": {k: {"type": "array", "items": v} for k, v in L.items()}, "required": names}))
+    # the same leaves, nullable through a type list (`"type": [T, "null"]`)
+    NL = {k: {**v, "type": [v["type"], "null"]} for k, v in L.items() if v.get("type") in ("integer", "number", "string", "boolean") and "enum" not in v}
+    NL["numBoth"] = {"type": ["number", "null"], "minimum": 0.5, "maximum": 2.75}
+    NL["numExcl"] = {"type": ["number", "null"], "exclusiveMinimum": 0.25, "exclusiveMaximum": 0.75}
+    docs.append(("member_nullable", {"title": "Model", "type": "object", "properties": dict(NL), "required": ["flag"]}))
+    docs.append(("array_item_nullable", {"title": "Model", "type": "object", "properties": {k: {"type": "array", "items": v} for k, v in NL.items()}}))
     docs.append(("ref_def", {"title": "Model", "type": "object", "properties": {k: {"$ref": f"#/definitions/D{k}"} for k in L}, "required": names, "definitions": {f"D{k}": v for k, v in L.items()}}))
     docs.append(
         (
